@@ -227,6 +227,9 @@ type world struct {
 	// stats
 	conflict bool
 	cur      string // kind of the event being executed
+	seenGone map[int]map[string]bool // C04: per replica, tags that were readable and then were not
+	present  map[int]map[string]bool
+	order    map[[2]string]bool       // C04: relative order of two tags, wherever both were readable
 }
 
 func newWorld(c *Ctx, kind string, n int) *world {
@@ -312,6 +315,52 @@ func (w *world) checkConvergence() {
 			}
 		}
 	}
+}
+
+// checkElements: C04 — on every replica after every step: no tag twice, a tag that disappeared never
+// comes back, and two tags stand in the same relative order on every replica at every moment
+func (w *world) checkElements() {
+	if w.kind != "list" {
+		return
+	}
+	if w.seenGone == nil {
+		w.seenGone, w.present, w.order = map[int]map[string]bool{}, map[int]map[string]bool{}, map[[2]string]bool{}
+	}
+	for _, r := range w.reps {
+		if w.seenGone[r.idx] == nil {
+			w.seenGone[r.idx], w.present[r.idx] = map[string]bool{}, map[string]bool{}
+		}
+		raw, _ := r.dt.GetSnapshot().ToJSON().([]interface{})
+		var tags []string
+		now := map[string]bool{}
+		for _, v := range raw {
+			t := fmt.Sprint(v)
+			if now[t] {
+				w.c.Violate("C04", "element-duplicated", fmt.Sprintf("replica %d shows element %s twice: %s", r.idx, t, r.viewJSON()), w.desc)
+			}
+			now[t] = true
+			tags = append(tags, t)
+			if w.seenGone[r.idx][t] {
+				w.c.Violate("C04", "element-resurrected", fmt.Sprintf("replica %d shows element %s again after it had disappeared there: %s", r.idx, t, r.viewJSON()), w.desc)
+			}
+		}
+		for t := range w.present[r.idx] {
+			if !now[t] {
+				w.seenGone[r.idx][t] = true
+			}
+		}
+		w.present[r.idx] = now
+		for i := 0; i < len(tags); i++ {
+			for j := i + 1; j < len(tags); j++ {
+				a, b := tags[i], tags[j]
+				if before, ok := w.order[[2]string{b, a}]; ok && before {
+					w.c.Violate("C04", "elements-reordered", fmt.Sprintf("replica %d shows %s before %s, but %s stood before %s at another replica or moment", r.idx, a, b, b, a), w.desc)
+				}
+				w.order[[2]string{a, b}] = true
+			}
+		}
+	}
+	w.c.Count("element-observations")
 }
 
 // ---------- events ----------
@@ -537,6 +586,7 @@ func (w *world) rndCall(r *replica) callSpec {
 			}}
 		}
 		v := w.rndVal()
+		lastPutKey, lastPutVal = k, v
 		return callSpec{fmt.Sprintf("(MPut %s %s)", gStr(k), gVal(v)), fmt.Sprintf("Put(%q,%v)", k, v), func(r *replica) (string, error) {
 			old, err := r.mp.Put(k, v)
 			if !isNilErr(err) {
@@ -579,6 +629,7 @@ func (w *world) rndCall(r *replica) callSpec {
 			for i := range vs {
 				vs[i] = w.rndTag()
 			}
+			lastListPos, lastListVals = pos, vs
 			return callSpec{fmt.Sprintf("(LInsert %s %s)", gZ(int64(pos)), gVals(vs)), fmt.Sprintf("InsertMany(%d,%v)", pos, vs), func(r *replica) (string, error) {
 				ret, err := r.li.InsertMany(pos, vs...)
 				if !isNilErr(err) {
@@ -610,6 +661,7 @@ func (w *world) rndCall(r *replica) callSpec {
 			for i := range vs {
 				vs[i] = w.rndTag()
 			}
+			lastListPos, lastListVals = pos, vs
 			return callSpec{fmt.Sprintf("(LUpdate %s %s)", gZ(int64(pos)), gVals(vs)), fmt.Sprintf("Update(%d,%v)", pos, vs), func(r *replica) (string, error) {
 				ret, err := r.li.Update(pos, vs...)
 				if !isNilErr(err) {
@@ -811,6 +863,7 @@ func sliceCrdt(c *Ctx, kind string) {
 					w.deliver(ri, 1+c.Rng.Intn(3))
 				}
 				w.checkConvergence()
+				w.checkElements()
 			}
 			// drain: everybody pushes, everybody receives everything
 			for ri := range w.reps {
@@ -822,6 +875,7 @@ func sliceCrdt(c *Ctx, kind string) {
 				w.deliver(ri, 1<<20)
 			}
 			w.checkConvergence()
+			w.checkElements()
 		})
 		if p {
 			prop := map[string]string{"local call": "C03", "transaction": "C09", "push": "C15", "delivery": "C01"}[w.cur]
